@@ -183,6 +183,24 @@ func checkC14(p *Program, r *Report) {
 	}
 	r.Floor("C14.const", 7)
 
+	// ---- C14.every: the builder hashes every item and encodes exactly the sorted list
+	if bld := p.Func("gcs", "BuildGCSFilter"); bld != nil {
+		scope := p.Reachable([]*ssa.Function{bld})
+		inScope := map[*ssa.Function]bool{}
+		var sc []*ssa.Function
+		for _, fn := range scope {
+			if fn.Pkg == bld.Pkg || (fn.Parent() != nil && fn.Parent().Pkg == bld.Pkg) {
+				inScope[fn] = true
+				sc = append(sc, fn)
+			}
+		}
+		everyRule, everyOnly = "C14.every", true
+		c13extra(p, r, sc, inScope)
+		everyRule, everyOnly = "C13.every", false
+		c14encodesSorted(p, r, bld)
+	} else {
+		r.Unresolved("C14.every", "gcs.BuildGCSFilter")
+	}
 	// ---- C14.order
 	want := map[string][]string{
 		"NBytes":  {"varint B.‹uint32›", "bytes B.‹[]byte›"},
@@ -678,4 +696,208 @@ func c14mulhi(p *Program, r *Report) {
 	}
 	r.Add("C14.mulhi", FnName(red), "reduction is the high 64 bits of v·N with the carry of the two middle products' low halves", red.Pos(), usesMul64 || carryOK, got)
 	r.Floor("C14.mulhi", 1)
+}
+
+// c14encodesSorted: the list the builder encodes is the list it sorted — the same slice value, ranged over completely —
+// so one code word is written per item (duplicates included: BIP158 writes a zero delta for them), N of them.
+func c14encodesSorted(p *Program, r *Report, bld *ssa.Function) {
+	var sorted ssa.Value
+	var sortCall *ssa.Call
+	var sortPos token.Pos
+	for _, b := range bld.Blocks {
+		for _, in := range b.Instrs {
+			c, ok := in.(*ssa.Call)
+			if !ok {
+				continue
+			}
+			name := calleeName(&c.Call)
+			if !(strings.HasPrefix(name, "sort.") || strings.HasPrefix(name, "slices.Sort")) || len(c.Call.Args) == 0 {
+				continue
+			}
+			v := c.Call.Args[0]
+			if mi, ok := v.(*ssa.MakeInterface); ok {
+				v = mi.X
+			}
+			if ct, ok := v.(*ssa.ChangeType); ok {
+				v = ct.X
+			}
+			sorted, sortPos, sortCall = v, c.Pos(), c
+		}
+	}
+	// the same slice value: the same SSA value, or two loads of one local variable that is not assigned after the sort
+	// (a variable captured by the comparison closure lives in a cell)
+	sameVal := func(x ssa.Value) bool {
+		if x == sorted {
+			return true
+		}
+		lx, ok1 := x.(*ssa.UnOp)
+		ls, ok2 := sorted.(*ssa.UnOp)
+		if !ok1 || !ok2 || lx.Op != token.MUL || ls.Op != token.MUL || lx.X != ls.X {
+			return false
+		}
+		cell, ok := lx.X.(*ssa.Alloc)
+		if !ok {
+			return false
+		}
+		for _, u := range *cell.Referrers() {
+			switch y := u.(type) {
+			case *ssa.Store:
+				if y.Addr != ssa.Value(cell) {
+					return false
+				}
+				// the store cannot run after the sort
+				before := !reachableFrom(sortCall.Block(), nil)[y.Block()]
+				if y.Block() == sortCall.Block() {
+					before = false
+					for _, in := range y.Block().Instrs {
+						if in == ssa.Instruction(y) {
+							// first in the block: before, unless the block is in a cycle
+							before = true
+							for _, su := range y.Block().Succs {
+								if reachableFrom(su, nil)[y.Block()] {
+									before = false
+								}
+							}
+							break
+						}
+						if in == ssa.Instruction(sortCall) {
+							break
+						}
+					}
+				}
+				if !before {
+					return false
+				}
+			case *ssa.UnOp:
+			case *ssa.MakeClosure:
+				// the closure must only read the variable
+				if fnc, ok := y.Fn.(*ssa.Function); ok {
+					for i, bnd := range y.Bindings {
+						if bnd != ssa.Value(cell) || i >= len(fnc.FreeVars) {
+							continue
+						}
+						for _, fu := range *fnc.FreeVars[i].Referrers() {
+							if st, ok := fu.(*ssa.Store); ok && st.Addr == ssa.Value(fnc.FreeVars[i]) {
+								return false
+							}
+						}
+					}
+				}
+			case *ssa.DebugRef:
+			default:
+				return false
+			}
+		}
+		return true
+	}
+	if sorted == nil {
+		r.Unresolved("C14.every", "sort call in gcs.BuildGCSFilter")
+		return
+	}
+	n := 0
+	for _, b := range bld.Blocks {
+		for _, in := range b.Instrs {
+			ia, ok := in.(*ssa.IndexAddr)
+			if !ok {
+				continue
+			}
+			sl, ok := ia.X.Type().Underlying().(*types.Slice)
+			if !ok {
+				continue
+			}
+			if eb, ok := sl.Elem().Underlying().(*types.Basic); !ok || eb.Kind() != types.Uint64 {
+				continue
+			}
+			// only reads after the sort, inside a loop
+			if !isInLoop(b) {
+				continue
+			}
+			isRead := false
+			for _, u := range *ia.Referrers() {
+				if ld, ok := u.(*ssa.UnOp); ok && ld.Op == token.MUL {
+					isRead = true
+				}
+			}
+			if !isRead {
+				continue
+			}
+			// the comparison callback of sort.Slice is a closure: reads there are in another function; here: encode loop
+			n++
+			same := sameVal(ia.X)
+			how := "the encode loop reads " + exprString(ia.X) + ", the value handed to the sort at " + p.Pos(sortPos)
+			if !same {
+				how = "the encode loop reads " + exprString(ia.X) + ", which is not the slice value that was sorted (" + exprString(sorted) + "): entries may have been dropped or added in between"
+			}
+			full := rangesWhole(b, ia)
+			if same && !full {
+				how = "the encode loop does not range over the whole sorted slice"
+			}
+			r.Add("C14.every", FnName(bld), "one code word is written for every entry of the sorted list", ia.Pos(), same && full, how)
+		}
+	}
+	if n == 0 {
+		r.Unresolved("C14.every", "encode loop over the sorted values in gcs.BuildGCSFilter")
+	}
+	r.Floor("C14.every", 1)
+}
+
+func isInLoop(b *ssa.BasicBlock) bool {
+	for d := b; d != nil; d = d.Idom() {
+		if isLoopHeader(d) {
+			for _, pr := range d.Preds {
+				if d.Dominates(pr) && (pr == b || reachableFrom(b, nil)[pr]) {
+					return true
+				}
+			}
+		}
+	}
+	return false
+}
+
+// rangesWhole: ia indexes its slice with the index of a `range` / `for i := 0; i < len(x); i++` loop over that slice.
+func rangesWhole(b *ssa.BasicBlock, ia *ssa.IndexAddr) bool {
+	for h := b; h != nil; h = h.Idom() {
+		if !isLoopHeader(h) {
+			continue
+		}
+		iff, ok := lastInstr(h).(*ssa.If)
+		if !ok {
+			continue
+		}
+		c, ok := iff.Cond.(*ssa.BinOp)
+		if !ok || c.Op != token.LSS || c.X != ia.Index {
+			continue
+		}
+		ln, ok := c.Y.(*ssa.Call)
+		if !ok || !isBuiltin(&ln.Call, "len") || ln.Call.Args[0] != ia.X {
+			continue
+		}
+		var phi *ssa.Phi
+		want := int64(0)
+		if inc, ok := ia.Index.(*ssa.BinOp); ok && inc.Op == token.ADD {
+			phi, _ = inc.X.(*ssa.Phi)
+			want = -1
+		} else {
+			phi, _ = ia.Index.(*ssa.Phi)
+		}
+		if phi == nil || phi.Block() != h || len(phi.Edges) != 2 {
+			continue
+		}
+		okInit, okStep := false, false
+		for k, e := range phi.Edges {
+			if h.Dominates(h.Preds[k]) {
+				if inc, ok := e.(*ssa.BinOp); ok && inc.Op == token.ADD && inc.X == ssa.Value(phi) {
+					if k1, ok := constInt(inc.Y); ok && k1 == 1 {
+						okStep = true
+					}
+				}
+			} else if k0, ok := constInt(e); ok && k0 == want {
+				okInit = true
+			}
+		}
+		if okInit && okStep {
+			return true
+		}
+	}
+	return false
 }
